@@ -91,6 +91,10 @@ def materialise(man, units, tag, rnd_dir, layout="sep"):
     bams, names, pool_lines, ploidy, wanted = [], [], [], {}, []
     for u in units:
         members = ["M" + "".join(map(str, u["m"]))] if u["merged"] else [sname[i] for i in u["m"]]
+        if (sum(ord(c) for c in tag) // 2) % 2:
+            # a pool is a set: its members may be listed (and their files given) in any order, e.g. a member without
+            # reads at some locus before one with reads
+            members = members[::-1]
         for s in members:
             if bam_of[s] not in bams:
                 bams.append(bam_of[s])
@@ -128,7 +132,11 @@ def materialise(man, units, tag, rnd_dir, layout="sep"):
                 rr.extend(v[k] for v in by_pool.values() if len(v) > k)
                 k += 1
             pool_lines = rr
-        argv += ["--sample-pool", datasets.write_map(os.path.join(d, "pools.txt"), pool_lines)]
+        if len(units) == 1 and (sum(ord(c) for c in tag) // 4) % 2:
+            # one pool holding every sample of the run: the documented short form, the pool's name instead of a file
+            argv += ["--sample-pool", names[0]]
+        else:
+            argv += ["--sample-pool", datasets.write_map(os.path.join(d, "pools.txt"), pool_lines)]
     return argv, names, ploidy, os.path.join(d, "inbreeding.txt")
 
 
